@@ -58,7 +58,7 @@ CHECKS = {
             "DESIGN.md §5/C09"),
     "C10": ("sampler", "model_checking",
             "stateless deviation-bounded exploration incl. Gamma and Box-Muller answers; exact quadratic-form identity per execution",
-            "Every explored execution (all (D,L) cells 1..6 x 1..5 through bananas and flowers, plus the family) is checked for the quadratic-form identity at the returned momenta, shift = L^-1 u exactly, and the linear form Q^T(k+shift) = sqrt(v/2 lambda) q which pins the orientation of the factor.",
+            "Every explored execution (42 (D,L) cells - D = 1..6 x L = 1..5 and D = 7, 8, 10, 11 x L = 1..3 - through bananas and flowers, plus the family) is checked for the quadratic-form identity at the returned momenta, shift = L^-1 u exactly, and the linear form Q^T(k+shift) = sqrt(v/2 lambda) q which pins the orientation of the factor.",
             "Trusted: exact rational evaluation from the returned f64 values; condition-scaled tolerance.",
             "DESIGN.md §5/C10"),
     "C11": ("sampler", "model_checking",
@@ -67,8 +67,8 @@ CHECKS = {
             "Trusted: oracle J recursion, libm Gamma, brute-force tropical maxima.",
             "DESIGN.md §5/C11"),
     "C13": ("sampler", "model_checking",
-            "exhaustive (a,b) alphabet product on two pairs, <=2 deviations elsewhere, over all 30 (D,L) cells",
-            "All 30 (D,L) cells: every Gaussian component of every explored execution is compared with the Box-Muller transform of its designated pair (layout loop-major, last sine dropped for odd D*L).",
+            "exhaustive (a,b) alphabet product on two pairs, <=2 deviations elsewhere, over 42 (D,L) cells (D = 1..6 x L = 1..5 and D = 7, 8, 10, 11 x L = 1..3)",
+            "All 42 (D,L) cells: every Gaussian component of every explored execution is compared with the Box-Muller transform of its designated pair (layout loop-major, last sine dropped for odd D*L).",
             "Trusted: libm sqrt/log/sin/cos as reference.",
             "DESIGN.md §5/C13"),
     "C02": ("sampler", "model_checking",
